@@ -76,4 +76,14 @@ CHECKS = {
             ("cache", "Cache", 200), ("tar", "Tar", 150), ("osfs", "OSFS", 200), ("sublenient", "SubLenient", 150)]] + [
             dict(name="fuzznames", run="^$", fuzz="^FuzzNames$", fuzztime="45s", tiers=("thorough",), timeout_thorough=240)],
     ),
+    "C07": dict(
+        pkg="c07", level="exploration",
+        rule=("twin worlds: two identical parents (mem; mount.FS with a mount at a/b; os.FS; an Open-only FS; a Sub view of mem) are built from the same generated setup; a directory dir of the tree is drawn "
+              "(including '.', a mount point, a directory above or inside a mount); then a rapid state machine applies each generated op (C01 alphabet) at name through Sub(parent, dir) in world 1 and at dir/name directly "
+              "in world 2; results (success, data, entries, info, sentinel class, error type, error paths after joining dir) and the snapshots of every constituent FS of both worlds must be equal after every step. "
+              "non-trivial = dir != '.'"),
+        assumptions=["symbolic links are not created (the statement excludes them)", "for MkdirAll/RemoveAll error paths only the sentinel class and type are compared"],
+        legs=[dict(name=k, run="^Test%s$" % n, quick=q, thorough=q * 10, shards=2) for (k, n, q) in [
+            ("mem", "Mem", 250), ("mount", "Mount", 250), ("osfs", "OSFS", 120), ("openonly", "OpenOnly", 120), ("subsub", "SubSub", 150)]],
+    ),
 }
